@@ -41,6 +41,7 @@ type retInfo struct {
 	reach Term
 	vals  []Term
 	heap  *Heap
+	pos   token.Position
 }
 
 type loopState struct {
@@ -77,6 +78,7 @@ type Exec struct {
 	closures  map[ssa.Value]*ssa.MakeClosure
 	panicked  []retInfo // explicit panics / exceptional exits (reach, heap)
 	skipSafety bool
+	witness    map[string]SV
 }
 
 type unsupportedErr struct{ msg string }
@@ -381,7 +383,7 @@ func (ex *Exec) alloc(h *Heap, hint string) Term {
 func newExec(q *Q, fn *ssa.Function, parent *Exec) *Exec {
 	ex := &Exec{q: q, P: q.P, fn: fn, vals: map[ssa.Value]Term{}, tuples: map[ssa.Value][]Term{}, locs: map[ssa.Value]*Loc{},
 		reach: map[*ssa.BasicBlock]Term{}, endHeap: map[*ssa.BasicBlock]*Heap{}, lstate: map[*ssa.BasicBlock]*loopState{},
-		counters: map[string]int{}, closures: map[ssa.Value]*ssa.MakeClosure{}}
+		counters: map[string]int{}, closures: map[ssa.Value]*ssa.MakeClosure{}, witness: map[string]SV{}}
 	if parent != nil {
 		ex.depth = parent.depth + 1
 		ex.stack = append(append([]*ssa.Function{}, parent.stack...), fn)
@@ -651,6 +653,7 @@ func (ex *Exec) instr(ins ssa.Instruction, b *ssa.BasicBlock, h *Heap, reach Ter
 		m := ex.val(x.Map)
 		ex.safety("safe.nilmap", reach, not(eq(m, tInt(0))), x, "assignment to entry in nil map")
 		k := ex.val(x.Key)
+		k, _ = ex.resolveMapKey(mt, m, k, h)
 		hm := q.heapGet(h, hk)
 		vm := q.heapGet(h, vk)
 		q.heapSet(h, hk, store(hm, m, store(sel(hm, m), k, tTrue)))
@@ -691,7 +694,7 @@ func (ex *Exec) instr(ins ssa.Instruction, b *ssa.BasicBlock, h *Heap, reach Ter
 			}
 			vs = append(vs, ex.val(r))
 		}
-		ex.rets = append(ex.rets, retInfo{reach: reach, vals: vs, heap: h.clone()})
+		ex.rets = append(ex.rets, retInfo{reach: reach, vals: vs, heap: h.clone(), pos: ex.pos(x)})
 	case *ssa.Panic:
 		msg := panicMessage(x)
 		allowed := false
@@ -762,12 +765,67 @@ func (ex *Exec) mapKeys(mt *types.Map) (string, string) {
 	return hk, vk
 }
 
+// contentEq: Go == on comparable values of type t (strings by content).
+func (ex *Exec) contentEq(t types.Type, a, b Term) Term {
+	switch u := t.Underlying().(type) {
+	case *types.Basic:
+		if u.Info()&types.IsString != 0 {
+			return ex.q.strEq(a, b)
+		}
+	case *types.Struct:
+		var cs []Term
+		for i := 0; i < u.NumFields(); i++ {
+			cs = append(cs, ex.contentEq(u.Field(i).Type(), ex.q.so.structField(a, u, i), ex.q.so.structField(b, u, i)))
+		}
+		return and(cs...)
+	}
+	return eq(a, b)
+}
+
+func typeHasString(t types.Type) bool {
+	switch u := t.Underlying().(type) {
+	case *types.Basic:
+		return u.Info()&types.IsString != 0
+	case *types.Struct:
+		for i := 0; i < u.NumFields(); i++ {
+			if typeHasString(u.Field(i).Type()) {
+				return true
+			}
+		}
+	case *types.Array:
+		return typeHasString(u.Elem())
+	}
+	return false
+}
+
+// resolveMapKey: maps are modelled with structurally compared keys.  For key types containing strings
+// (compared by content in Go) a lookup may also hit any present key that is content-equal: the key
+// actually used is k' (an arbitrary present content-equal key) if the solver picks one, else k itself.
+// This over-approximates both outcomes of the real lookup.
+func (ex *Exec) resolveMapKey(mt *types.Map, m, k Term, h *Heap) (Term, Term) {
+	q := ex.q
+	if !typeHasString(mt.Key()) || q.pureDepth > 0 {
+		return k, tTrue
+	}
+	hk, _ := ex.mapKeys(mt)
+	k2 := q.fresh("mapkey", k.Sort)
+	hit := q.fresh("keyhit", sBool)
+	hm := q.heapGet(h, hk)
+	q.assume(implies(hit, and(sel(sel(hm, m), k2), ex.contentEq(mt.Key(), k2, k))))
+	q.nfresh++
+	k3 := Term{fmt.Sprintf("k3!%d", q.nfresh), k.Sort}
+	q.assume(Term{fmt.Sprintf("(forall ((%s %s)) (! (=> (and %s %s) %s) :pattern (%s)))", k3.S, k.Sort,
+		sel(sel(hm, m), k3).S, ex.contentEq(mt.Key(), k3, k).S, hit.S, sel(sel(hm, m), k3).S), sBool})
+	return q.def("keyeff", ite(hit, k2, k)), hit
+}
+
 func (ex *Exec) lookup(x *ssa.Lookup, h *Heap, reach Term) {
 	q := ex.q
 	if mt, ok := x.X.Type().Underlying().(*types.Map); ok {
 		hk, vk := ex.mapKeys(mt)
 		m := ex.val(x.X)
 		k := ex.val(x.Index)
+		k, _ = ex.resolveMapKey(mt, m, k, h)
 		has := q.def("has", and(not(eq(m, tInt(0))), sel(sel(q.heapGet(h, hk), m), k)))
 		v := q.def("mapv", ite(has, sel(sel(q.heapGet(h, vk), m), k), ex.zero(mt.Elem())))
 		ex.typeFacts(v, mt.Elem())
